@@ -101,6 +101,18 @@ var ProfileC05 = &Profile{
 	},
 }
 
+// chain-level part of C03: swap-dominated histories (several swaps per block against the same pools, both
+// directions and forms), few price moves, almost no perpetual exposure
+var ProfileC03 = &Profile{
+	ID: "C03", Name: "swap-value", MinBlocks: 6, MaxBlocks: 40, MaxTxs: 6, Spec: specDefault, Check: CheckC03Chain,
+	Weights: map[string]int{"amm.swap_in": 14, "amm.swap_out": 14, "amm.swap_in_2hop": 4, "amm.swap_out_2hop": 4, "amm.swap_by_denom": 3, "amm.join": 4, "amm.exit": 4,
+		"oracle.feed_price": 2, "perpetual.open": 1, "perpetual.close": 2, "leveragelp.open": 1, "bank.send_to_pool": 1},
+	Rule: "history with >=3 judged pool-blocks (only swaps/joins/exits, unchanged prices, no perpetual exposure) and >=1 block with >=2 successful swaps",
+	NonTrivial: func(h *History) bool {
+		return h.Labels["c03-judged-pool-blocks"] >= 3 && h.Labels["c03-blocks-with>=2-swaps"] >= 1
+	},
+}
+
 var ProfileC06 = &Profile{
 	ID: "C06", Name: "lending", MinBlocks: 5, MaxBlocks: 40, MaxTxs: 5, Spec: specLending, Check: CheckC06,
 	Weights: map[string]int{"stablestake.bond": 12, "stablestake.unbond": 8, "leveragelp.open": 14, "leveragelp.close": 10, "leveragelp.close_positions": 4,
